@@ -11,6 +11,7 @@ import (
 	"encoding/json"
 	"fmt"
 	"os"
+	"runtime"
 	"sort"
 	"strings"
 
@@ -637,6 +638,65 @@ func main() {
 				if i == 7 {
 					c.Sample(map[string]any{"sequence": strings.Join(names, "; ")})
 				}
+			}
+		}})
+	ck.Domains = append(ck.Domains, &drv.Domain{Name: "key-object-storage-reuse", Size: 5, Chunk: 1, Desc: "key objects whose STORAGE is reused: a key object that has signed is overwritten in place by another key (*d = *other, both orders, and there-and-back), a value copy of a key object signs, and 48 short-lived key objects of two alternating seeds are created, used and dropped with garbage collections in between (so later objects land on earlier objects' addresses): every signature equals the specification's for the key the object holds NOW, and verifies under the object's own public key",
+		Run: func(c *drv.Ctx, lo, hi int64) {
+			sa, sb := dilscope.Seed(2, c.Seed), dilscope.Seed(5, c.Seed)
+			ka, kb := getKeys(sa), getKeys(sb)
+			m := []byte("storage reuse message")
+			ra, rb := ka.ref.Sign(m, refdil.Skip{}).Sig, kb.ref.Sign(m, refdil.Skip{}).Sig
+			mk := func(s [48]byte) *dilithium.Dilithium { d, _ := dilithium.NewDilithiumFromSeed(s); return d }
+			chk := func(i int64, what string, d *dilithium.Dilithium, want []byte, wantPK []byte) {
+				sig, err := d.Sign(m)
+				pk := d.GetPK()
+				c.Eval(1)
+				if err != nil || !bytes.Equal(sig[:], want) || !bytes.Equal(pk[:], wantPK) || !dilithium.Verify(m, sig, &pk) {
+					c.Fail(i, "storage-reuse:signature-is-not-the-specification's-for-the-key-now-held", map[string]any{"step": what, "equals_spec": bytes.Equal(sig[:], want), "pk_equals_spec": bytes.Equal(pk[:], wantPK), "verifies_under_own_pk": dilithium.Verify(m, sig, &pk)})
+				}
+			}
+			for i := lo; i < hi; i++ {
+				c.At(i)
+				c.Nontrivial(1)
+				switch i {
+				case 0, 1:
+					first, second, r1, r2, k1, k2 := sa, sb, ra, rb, ka, kb
+					if i == 1 {
+						first, second, r1, r2, k1, k2 = sb, sa, rb, ra, kb, ka
+					}
+					d := mk(first)
+					chk(i, "first key", d, r1, k1.ref.PK)
+					*d = *mk(second)
+					chk(i, "after *d = *other", d, r2, k2.ref.PK)
+					chk(i, "after *d = *other, again", d, r2, k2.ref.PK)
+				case 2:
+					d := mk(sa)
+					*d = *mk(sb)
+					chk(i, "overwritten before first use", d, rb, kb.ref.PK)
+					*d = *mk(sa)
+					chk(i, "overwritten back", d, ra, ka.ref.PK)
+				case 3:
+					d := mk(sa)
+					chk(i, "original", d, ra, ka.ref.PK)
+					cp := *d
+					chk(i, "value copy", &cp, ra, ka.ref.PK)
+					cp = *mk(sb)
+					chk(i, "value copy reassigned", &cp, rb, kb.ref.PK)
+					chk(i, "original after the copy was reassigned", d, ra, ka.ref.PK)
+				case 4:
+					for j := 0; j < 48; j++ {
+						d := mk(sa)
+						want, wk := ra, ka
+						if j%2 == 1 || j%7 == 3 {
+							d, want, wk = mk(sb), rb, kb
+						}
+						chk(i, fmt.Sprintf("short-lived object %d", j), d, want, wk.ref.PK)
+						d = nil
+						runtime.GC()
+						runtime.GC()
+					}
+				}
+				c.Outcome("ok")
 			}
 		}})
 	ck.Finish = func(cov map[string]any, m map[string]*drv.DomStats) {
